@@ -299,3 +299,7 @@ impl Out {
         self
     }
 }
+
+// ---- added for C14 (derive macro corpus): both `bfieldcodec_derive` versions expand to paths starting with
+// `crate::twenty_first::…`; `main.rs` glob-imports this module, which puts the name into the crate root.
+pub use ::twenty_first;
